@@ -1,6 +1,7 @@
 """Shared machinery of the engine legs (C01, C02, C03, C07, ...): tag-traced symbolic ABI arguments,
 the concrete replay of solver models through the real build, translator validation."""
 import sys
+import time
 from fractions import Fraction
 
 import z3
@@ -100,7 +101,62 @@ class RealBuildHang(Exception):
 
 
 def real_run(script, option, n_iter=None, calls=None):
-    """Drive the real build of the working tree. Returns (data list, t list)."""
+    """Drive the real build of the working tree. Returns (data list, t list). Without a `calls` callback the run happens in a forked
+    child with a time limit: a native call that never returns (a loop of the engine that does not terminate) cannot be interrupted
+    from Python, and must not hang the check - it is reported as RealBuildHang."""
+    if calls is not None:
+        return _real_run_here(script, option, n_iter, calls)
+    import os
+    import pickle
+    import select
+    import signal
+    r, w = os.pipe()
+    pid = os.fork()
+    if pid == 0:
+        code = 0
+        try:
+            os.close(r)
+            try:
+                out = ("ok", _real_run_here(script, option, n_iter, None))
+            except RealBuildHang as ex:
+                out = ("hang", str(ex))
+            except BaseException as ex:     # noqa
+                out = ("err", "%s: %s" % (type(ex).__name__, str(ex)[:300]))
+            with os.fdopen(w, "wb") as fh:
+                pickle.dump(out, fh)
+        except BaseException:               # noqa
+            code = 1
+        os._exit(code)
+    os.close(w)
+    buf = b""
+    deadline = time.time() + REAL_RUN_LIMIT_S + 15
+    try:
+        while True:
+            left = deadline - time.time()
+            if left <= 0:
+                os.kill(pid, signal.SIGKILL)
+                os.waitpid(pid, 0)
+                raise RealBuildHang("a call into the real build did not return within %d s" % (REAL_RUN_LIMIT_S + 15))
+            ready, _, _ = select.select([r], [], [], min(left, 1.0))
+            if ready:
+                chunk = os.read(r, 1 << 20)
+                if not chunk:
+                    break
+                buf += chunk
+    finally:
+        os.close(r)
+    _, status = os.waitpid(pid, 0)
+    if not buf:
+        raise HarnessError("the real build crashed in a child process (status %d)" % status)
+    kind, val = pickle.loads(buf)
+    if kind == "ok":
+        return val
+    if kind == "hang":
+        raise RealBuildHang(val)
+    raise HarnessError("real run failed in the child: " + val)
+
+
+def _real_run_here(script, option, n_iter=None, calls=None):
     e = real_engine(option)
     # like record_setup: the engine OBJECT has been used before (one finalized and one abandoned set-up of other scripts)
     from .glue import _decoys, _DECOYS
